@@ -626,3 +626,6 @@ def percpu(chk, repo):
 
 def canon_d(e):
     return dotted(e) or unparse(e)
+
+# added rules (appended to the explanation the evidence file carries)
+EXPLANATION += (" " + 'Added during the build (DESIGN.md 4.31, second table): create_map by abstract execution with a stand-in open() over 9 CPU masks; a key/value object whose type no isinstance check establishes is an undischarged size obligation.')
